@@ -16,7 +16,7 @@ META = {
         "(b) the suspend / buffering counters are balanced at both exits. (c) lock-order graph: an edge A->B for every acquisition of B while A is held, collected over all "
         "contexts; a cycle between lock kinds is a potential deadlock and the minority direction's sites are reported (may-analysis). (d) the per-class lock table only grows: no "
         "pop/del/rebinding of entries outside class initialisation (other objects bound to the old key keep working); (e) a lock is added to the table, and the test that it is missing is made, "
-        "under the class lock. (c') two locks of the same kind: no collection lock is acquired while the collection lock of ANOTHER tree is held unless a class-wide lock taken first serialises both "
+        "under the class lock; (g) no lock operation depends on a test of the (thread-shared) buffering counters. (c') two locks of the same kind: no collection lock is acquired while the collection lock of ANOTHER tree is held unless a class-wide lock taken first serialises both "
         "threads; and, because mutators read their argument under their own collection lock, no read path acquires a collection lock (a.update(b) || b.update(a)). Liveness in general is NOT decided."
     ),
     "rule": "contexts = thread-safe class x (mutators + readers + property setters) x {root,nested} x mode; non-trivial = acquires a lock",
@@ -121,6 +121,25 @@ def run_unit(A, unit, rep, tier):
                     rep.ok("C10.b", f"C10.b {g.label}: suspend counter balanced at both exits")
                 else:
                     rep.fail("C10.b", norm_key("C10.b", f.qualname, bad[2]), f"{f.qualname}: the tree's suspend counter is {bad[1]:+d} when the operation {bad[2]}; later loads/saves are skipped", [], g.label)
+                # (g) a lock is not acquired / released depending on thread-shared counter state: the buffering counters
+                #     can be changed by another thread between the acquire-side test and the release-side test, so the
+                #     two evaluations may disagree (acquired but never released, or released without being held)
+                cond_lock = False
+                for bnode in live(g):
+                    if bnode.kind != "branch":
+                        continue
+                    if not any(x.kind == "obj" and b.is_counter(x) for x in bnode["cond"].walk()):
+                        continue
+                    for n in locks:
+                        if n.stack == bnode.stack and n.loc[0] == bnode.loc[0] and bnode.span[0] < n.loc[1] <= bnode.span[1]:
+                            rep.fail("C10.g", norm_key("C10.g", n.func, bnode.stmt),
+                                     f"{n.func}: the lock operation `{n.stmt}` depends on `{bnode.stmt}`, a test of buffering state that other threads change: the matching operation on the other side "
+                                     "of the critical section evaluates it again and may decide differently - the lock stays held forever (or an un-acquired lock is released)",
+                                     [n.where() + ": " + n.stmt], g.label)
+                            cond_lock = True
+                            break
+                if locks and not cond_lock:
+                    rep.ok("C10.g")
                 # (c') facts for the symmetric-deadlock rule: a mutator that reads an ARGUMENT (possibly another synced
                 #      collection) while holding its own collection lock, and a reader that takes a collection lock
                 if func is None and m in muts_:
